@@ -529,6 +529,11 @@ theorem place_length (c : Cache) (idx : Nat) (toks : List Tok) : (place c idx to
   | nil => rfl
   | cons t ts ih => simp [place, ih, placeTok]
 
+theorem place_window (c : Cache) (idx : Nat) (toks : List Tok) : (place c idx toks).window = c.window := by
+  induction toks generalizing c idx with
+  | nil => rfl
+  | cons t ts ih => simp [place, ih, placeTok]
+
 theorem place_pad (c : Cache) (idx : Nat) (toks : List Tok) : (place c idx toks).cachePad = c.cachePad := by
   induction toks generalizing c idx with
   | nil => rfl
@@ -758,7 +763,8 @@ def placeCells : List Cell → Nat → List Tok → List Cell
 
 theorem place_cells (c : Cache) (idx : Nat) (toks : List Tok) :
     (place c idx toks).cells = placeCells c.cells idx toks ∧ (place c idx toks).rows = c.rows ∧
-    (place c idx toks).hasShift = c.hasShift ∧ (place c idx toks).hasLayers = c.hasLayers := by
+    (place c idx toks).hasShift = c.hasShift ∧ (place c idx toks).hasLayers = c.hasLayers ∧
+    (place c idx toks).curLoc = c.curLoc := by
   induction toks generalizing c idx with
   | nil => simp [place, placeCells]
   | cons t ts ih =>
@@ -938,6 +944,92 @@ theorem getD_map_lt {α β} (f : α → β) (l : List α) (j : Nat) (h : j < l.l
 
 theorem getD_mem {α} (l : List α) (j : Nat) (h : j < l.length) (d : α) : l.getD j d ∈ l := by
   simp [List.getD_eq_getElem?_getD, List.getElem?_eq_getElem h]
+
+/-! ### exact contents of the placed block (cells and rows) -/
+
+instance : Inhabited Tok := ⟨⟨0, 0⟩⟩
+
+theorem getD_set_eq {α} (l : List α) (i : Nat) (a d : α) (h : i < l.length) : (l.set i a).getD i d = a := by
+  simp [List.getD_eq_getElem?_getD, h]
+
+theorem getD_set_ne {α} (l : List α) (i j : Nat) (a d : α) (h : i ≠ j) : (l.set i a).getD j d = l.getD j d := by
+  simp [List.getD_eq_getElem?_getD, List.getElem?_set_ne h]
+
+theorem getD_placeCells_block (cells : List Cell) (idx : Nat) (toks : List Tok) (k : Nat)
+    (hfit : idx + toks.length ≤ cells.length) (hk : k < toks.length) :
+    (placeCells cells idx toks).getD (idx + k) Cell.empty = ⟨(toks.getD k default).pos, [(toks.getD k default).seq]⟩ := by
+  induction toks generalizing cells idx k with
+  | nil => simp at hk
+  | cons t ts ih =>
+    simp only [List.length_cons] at hfit hk
+    simp only [placeCells]
+    cases k with
+    | zero =>
+      have := (getD_placeCells (cells.set idx ⟨t.pos, [t.seq]⟩) (idx + 1) ts idx (by simp; omega)).1 (Or.inl (by omega))
+      simp only [Nat.add_zero, this, List.getD_cons_zero]
+      exact getD_set_eq _ _ _ _ (by omega)
+    | succ k =>
+      have := ih (cells.set idx ⟨t.pos, [t.seq]⟩) (idx + 1) k (by simp; omega) (by omega)
+      rw [show idx + (k + 1) = idx + 1 + k by omega, this]
+      simp
+
+theorem getD_putRows (rows : List Row) (idx : Nat) (ids : List Nat) (j : Nat)
+    (hfit : idx + ids.length ≤ rows.length) :
+    (j < idx ∨ idx + ids.length ≤ j → (putRows rows idx ids).getD j default = rows.getD j default) := by
+  induction ids generalizing rows idx with
+  | nil => intro _; rfl
+  | cons a as ih =>
+    simp only [List.length_cons] at hfit ⊢
+    intro hout
+    simp only [putRows]
+    rw [ih (rows.set idx ⟨a, 0⟩) (idx + 1) (by simp; omega) (by omega)]
+    exact getD_set_ne _ _ _ _ _ (by omega)
+
+theorem getD_putRows_block (rows : List Row) (idx : Nat) (ids : List Nat) (k : Nat)
+    (hfit : idx + ids.length ≤ rows.length) (hk : k < ids.length) :
+    (putRows rows idx ids).getD (idx + k) default = ⟨ids.getD k 0, 0⟩ := by
+  induction ids generalizing rows idx k with
+  | nil => simp at hk
+  | cons a as ih =>
+    simp only [List.length_cons] at hfit hk
+    simp only [putRows]
+    cases k with
+    | zero =>
+      simp only [Nat.add_zero]
+      rw [getD_putRows (rows.set idx ⟨a, 0⟩) (idx + 1) as idx (by simp; omega) (Or.inl (by omega))]
+      simp only [List.getD_cons_zero]
+      exact getD_set_eq _ _ _ _ (by omega)
+    | succ k =>
+      have := ih (rows.set idx ⟨a, 0⟩) (idx + 1) k (by simp; omega) (by omega)
+      rw [show idx + (k + 1) = idx + 1 + k by omega, this]
+      simp
+
+theorem range_split3 (n lo len : Nat) (h : lo + len ≤ n) :
+    List.range n = List.range' 0 lo ++ (List.range' lo len ++ List.range' (lo + len) (n - (lo + len))) := by
+  rw [List.range_eq_range']
+  have e1 : List.range' lo len ++ List.range' (lo + len) (n - (lo + len)) = List.range' lo (len + (n - (lo + len))) := by
+    simpa using (List.range'_append_1 (s := lo) (m := len) (n := n - (lo + len)))
+  have e2 : List.range' 0 lo ++ List.range' lo (len + (n - (lo + len))) = List.range' 0 (lo + (len + (n - (lo + len)))) := by
+    simpa using (List.range'_append_1 (s := 0) (m := lo) (n := len + (n - (lo + len))))
+  rw [e1, e2]
+  congr 1
+  omega
+
+/-- a block of `some`s produced by consecutive indices is a `map` over the offsets -/
+theorem filterMap_block {β} (f : Nat → Option β) (g : Nat → β) (lo len : Nat)
+    (h : ∀ k, k < len → f (lo + k) = some (g k)) :
+    (List.range' lo len).filterMap f = (List.range len).map g := by
+  induction len generalizing lo g with
+  | zero => simp
+  | succ m ih =>
+    rw [List.range'_succ, List.filterMap_cons, show f lo = some (g 0) from by simpa using h 0 (by omega)]
+    rw [List.range_succ_eq_map, List.map_cons, List.map_map]
+    simp only
+    congr 1
+    exact ih (g ∘ Nat.succ) (lo + 1) (fun k hk => by
+      have := h (k + 1) (by omega)
+      rw [show lo + (k + 1) = lo + 1 + k by omega] at this
+      simpa using this)
 
 /-! ### Inv is kept by Put, CopyPrefix and Remove (all outcomes) -/
 
